@@ -76,7 +76,9 @@ theorem gmp_exec_iff {σ : Type} (account : String) (msgs : List (Ica.Msg σ)) (
     | some e =>
       have : ¬ ∀ x ∈ m :: t, SingleSigner account x := by
         rw [← authenticate_go_none]; simp [hauth]
-      simp [this]
+      constructor
+      · intro h; cases h
+      · intro h; exact absurd h.1 this
     | none =>
       have hall := (authenticate_go_none account (m :: t)).mp hauth
       cases hrun : runMsgs (m :: t) s with
@@ -118,7 +120,8 @@ theorem send_sender_is_signer (portsOk clientIdsOk dataOk : Bool) (sender : Opti
   cases sender with
   | none => simp at h
   | some a =>
-    simp only [bne_iff_ne, ne_eq, ite_eq_right_iff, reduceCtorEq, imp_false, Decidable.not_not] at h
-    simp [h]
+    by_cases he : a = signer
+    · simp [he]
+    · simp [he] at h
 
 end IbcVerif.C39
